@@ -16,6 +16,7 @@ import (
 	"strconv"
 	"strings"
 	"sync"
+	"sync/atomic"
 	"testing"
 	"testing/synctest"
 	"time"
@@ -67,6 +68,8 @@ type tcpOpt func(cfg *tcpclient.Config)
 func (o tcpOpt) TCPClientApply(cfg *tcpclient.Config) { o(cfg) }
 
 type pair struct {
+	closed  func() bool // the caller's connection has ended (tcp)
+	overrun func() bool // the relay has carried more frames than any exchange of these sizes can need and has cut the connection
 	post  func(ctx context.Context, path string, body []byte) (*pool.Message, error)
 	write func(ctx context.Context, path string, body []byte, nr byte) error // one-way write of a POST with No-Response = nr (0: without)
 	get   func(ctx context.Context, path string) (*pool.Message, error)
@@ -148,11 +151,18 @@ func udpPair(szxA, szxB int, lg *applog, drop int) pair {
 	}
 }
 
-func csmBlockwise() []byte {
+// csmFrame is a Capabilities and Settings Message (RFC 8323 section 5.3): Block-Wise-Transfer and / or Max-Message-Size
+// (mms = 0: the option is not carried — "not announced", the base value 1152 then applies).
+func csmFrame(bwt bool, mms uint32) []byte {
 	m := pool.NewMessage(context.Background())
 	m.SetCode(codes.CSM)
 	m.SetToken(message.Token{1})
-	m.AddOptionBytes(message.TCPBlockWiseTransfer, []byte{})
+	if mms != 0 {
+		m.SetOptionUint32(message.TCPMaxMessageSize, mms)
+	}
+	if bwt {
+		m.AddOptionBytes(message.TCPBlockWiseTransfer, []byte{})
+	}
 	b, err := m.MarshalWithEncoder(tcpcoder.DefaultCoder)
 	if err != nil {
 		panic(err)
@@ -160,17 +170,56 @@ func csmBlockwise() []byte {
 	return append([]byte(nil), b...)
 }
 
+func csmBlockwise() []byte { return csmFrame(true, 0) }
+
+// csmHello: what the relay tells a side about its peer before anything else (this library's own CSM carries no option at
+// all, so a peer that announces capabilities is always a scripted one).  form: "bwt" — Block-Wise-Transfer only, no
+// Max-Message-Size; "bwt+mms" — both in one CSM; "bwt,mms" / "mms,bwt" — two CSMs in that order.  mms is the peer's real limit.
+func csmHello(form string, mms uint32) [][]byte {
+	switch form {
+	case "bwt+mms":
+		return [][]byte{csmFrame(true, mms)}
+	case "bwt,mms":
+		return [][]byte{csmFrame(true, 0), csmFrame(false, mms)}
+	case "mms,bwt":
+		return [][]byte{csmFrame(false, mms), csmFrame(true, 0)}
+	}
+	return [][]byte{csmFrame(true, 0)}
+}
+
 func tcpPair(szxA, szxB int, maxA, maxB uint32, lg *applog) (pair, error) {
+	return tcpPairCSM(szxA, szxB, maxA, maxB, "bwt", "bwt", 0, lg)
+}
+
+// tcpPairCSM: as tcpPair; helloA is the form of the CSM(s) that A receives about B (and helloB vice versa); budget > 0
+// bounds the number of frames the relay carries: one more and it cuts both connections and reports `overrun` — an exchange
+// that is still exchanging frames then is not going to end ("never by hanging": under the virtual clock a ping-pong of
+// frames that makes no progress never lets a deadline pass).
+func tcpPairCSM(szxA, szxB int, maxA, maxB uint32, helloA, helloB string, budget int, lg *applog) (pair, error) {
 	a1, a2 := net.Pipe()
 	b1, b2 := net.Pipe()
 	// relay: what A writes goes to B and vice versa; each side first gets a CSM announcing block-wise transfer
-	pump := func(src, dst net.Conn, hello []byte) {
-		// net.Pipe writes are atomic per call and every message is one write, so the extra frame cannot split another
-		go func() { _, _ = dst.Write(hello) }()
+	var frames atomic.Int64
+	var overrun atomic.Bool
+	pump := func(src, dst net.Conn, hello [][]byte) {
+		// net.Pipe writes are atomic per call and every message is one write, so the extra frames cannot split another
+		go func() {
+			for _, h := range hello {
+				if _, err := dst.Write(h); err != nil {
+					return
+				}
+			}
+		}()
 		buf := make([]byte, 65536)
 		for {
 			n, err := src.Read(buf)
 			if n > 0 {
+				if budget > 0 && frames.Add(1) > int64(budget) {
+					overrun.Store(true)
+					_ = a2.Close()
+					_ = b2.Close()
+					return
+				}
 				if _, werr := dst.Write(buf[:n]); werr != nil {
 					return
 				}
@@ -181,8 +230,8 @@ func tcpPair(szxA, szxB int, maxA, maxB uint32, lg *applog) (pair, error) {
 			}
 		}
 	}
-	go pump(a2, b2, csmBlockwise())
-	go pump(b2, a2, csmBlockwise())
+	go pump(a2, b2, csmHello(helloB, maxA)) // B is told about A
+	go pump(b2, a2, csmHello(helloA, maxB)) // A is told about B
 	mk := func(c net.Conn, szx int, max uint32, handler bool) (*tcpclient.Conn, error) {
 		return tcp.Client(c, tcpOpt(func(cfg *tcpclient.Config) {
 			cfg.MessagePool = pool.New(64, 2048)
@@ -219,6 +268,8 @@ func tcpPair(szxA, szxB int, maxA, maxB uint32, lg *applog) (pair, error) {
 		return pair{}, err
 	}
 	return pair{
+		overrun: overrun.Load,
+		closed:  func() bool { return a.Context().Err() != nil },
 		post: func(ctx context.Context, path string, body []byte) (*pool.Message, error) {
 			return a.Post(ctx, path, message.TextPlain, bytes.NewReader(body))
 		},
@@ -252,6 +303,24 @@ type connCase struct {
 	qlen, rlen int
 	drop       int
 	nr         byte // method "write": value of the No-Response option of the request (0: none)
+	// tcp: the form of the CSM(s) each side receives about its peer ("" = "bwt": Block-Wise-Transfer, no Max-Message-Size)
+	helloA, helloB string
+}
+
+// frameBudget: generous bound on the frames a fault-free exchange of these sizes needs over a stream: one request and one
+// response frame per block of the smaller size, both bodies, negotiation retries, the CSMs — times three.
+func frameBudget(c connCase) int {
+	unit := func(szx int) int {
+		if szx >= 7 {
+			return 1024
+		}
+		return 16 << szx
+	}
+	m := unit(c.szxA)
+	if unit(c.szxB) < m {
+		m = unit(c.szxB)
+	}
+	return 3*(2*(c.qlen/m+c.rlen/m+4)+8) + 16
 }
 
 func runConnCase(t *testing.T, c connCase, seed int) string {
@@ -263,7 +332,7 @@ func runConnCase(t *testing.T, c connCase, seed int) string {
 			p = udpPair(c.szxA, c.szxB, lg, c.drop)
 		} else {
 			var err error
-			p, err = tcpPair(c.szxA, c.szxB, c.maxA, c.maxB, lg)
+			p, err = tcpPairCSM(c.szxA, c.szxB, c.maxA, c.maxB, c.helloA, c.helloB, frameBudget(c), lg)
 			if err != nil {
 				result = "err-setup"
 				return
@@ -296,7 +365,10 @@ func runConnCase(t *testing.T, c connCase, seed int) string {
 		}()
 		<-done
 		cancel()
-		if result != "violates-panic" {
+		if p.overrun != nil && p.overrun() && result != "violates-panic" {
+			// fault-free stream, and after far more frames than the bodies have blocks the exchange was still going on
+			result = fmt.Sprintf("violates-hang-the-exchange-has-not-ended-after-%d-frames-(%d+%d-bytes-to-move)", frameBudget(c), c.qlen, c.rlen)
+		} else if result != "violates-panic" {
 			lg.mu.Lock()
 			reqs := append([]seen(nil), lg.reqs...)
 			lg.mu.Unlock()
@@ -319,6 +391,10 @@ func runConnCase(t *testing.T, c connCase, seed int) string {
 				case strings.HasPrefix(result, "violates"):
 				case err != nil:
 					result = "err"
+				case len(reqs) == 0 && p.closed != nil && p.closed():
+					// the peer refused a block and ended the connection: the only way a one-way exchange can end with an
+					// error after WriteMessage has returned — the application sees its connection go
+					result = "err-connection-ended"
 				case len(reqs) == 0:
 					result = "violates-one-way-write-returned-nil-without-any-fault-but-the-body-never-reached-the-peer's-application"
 				default:
@@ -407,6 +483,72 @@ func TestC04Conn(t *testing.T) {
 	for i, c := range cases {
 		res := runConnCase(t, c, seed*1000+i)
 		fmt.Fprintf(w, "conn %s %d %d %s %d %d %d result=%s\n", c.transport, c.szxA, c.szxB, c.method, c.qlen, c.rlen, c.drop, res)
+	}
+}
+
+// TestC04Csm (quick and thorough): block-wise over a stream is only entered towards a peer whose CSM announces
+// Block-Wise-Transfer, and how large a BERT block may be depends on Max-Message-Size — which such a peer may announce in the
+// same CSM, in another one, or NOT AT ALL (RFC 8323 section 5.3.1: the base value 1152 then applies).  Every form of the
+// announcement x own / peer limits (equal, peer smaller, peer larger) x SZX 0..6 and BERT x download / upload / both /
+// one-way write, fault-free, through the counting relay: the transfer completes with the exact body, or fails — within the
+// frame budget (`hang`).  Output lines `csm <helloA> <helloB> <szxA> <szxB> <maxA> <maxB> <method> <qlen> <rlen> result=…`.
+func TestC04Csm(t *testing.T) {
+	outp := os.Getenv("VERIF_OUT")
+	if outp == "" {
+		t.Skip("VERIF_OUT not set")
+	}
+	seed, _ := strconv.Atoi(os.Getenv("VERIF_SEED"))
+	only := os.Getenv("VERIF_SCENARIO")
+	f, err := os.Create(outp)
+	if err != nil {
+		t.Fatal(err)
+	}
+	defer f.Close()
+	w := bufio.NewWriter(f)
+	defer w.Flush()
+	unit := func(szx int, max uint32) int {
+		if szx == 7 {
+			return int(max/1024) * 1024
+		}
+		return 16 << szx
+	}
+	type sp struct{ a, b int }
+	pairs := []sp{}
+	for s := 0; s <= 7; s++ {
+		pairs = append(pairs, sp{s, s})
+	}
+	pairs = append(pairs, sp{7, 6}, sp{6, 7}, sp{7, 2}, sp{3, 7})
+	limits := [][2]uint32{{1152, 1152}, {2304, 1152}, {1152, 2304}, {3500, 3500}}
+	forms := []string{"bwt", "bwt+mms", "bwt,mms", "mms,bwt"}
+	i := 0
+	for _, pr := range pairs {
+		for _, lim := range limits {
+			for _, form := range forms {
+				for _, method := range []string{"get", "post", "both", "write"} {
+					i++
+					ua, ub := unit(pr.a, lim[0]), unit(pr.b, lim[1])
+					c := connCase{transport: "tcp", szxA: pr.a, szxB: pr.b, maxA: lim[0], maxB: lim[1], helloA: form, helloB: form}
+					up := []int{2*ua + 1, 3 * ua, ua + 1}[i%3]
+					down := []int{2*ub + 1, 3 * ub, ub + 1}[i%3]
+					switch method {
+					case "get":
+						c.method, c.rlen = "get", down
+					case "post":
+						c.method, c.qlen, c.rlen = "post", up, 3
+					case "both":
+						c.method, c.qlen, c.rlen = "post", up, down+7
+					default:
+						c.method, c.qlen = "write", up
+					}
+					name := fmt.Sprintf("%s %s %d %d %d %d %s %d %d", c.helloA, c.helloB, c.szxA, c.szxB, c.maxA, c.maxB, c.method, c.qlen, c.rlen)
+					if only != "" && name != only {
+						continue
+					}
+					res := runConnCase(t, c, seed*1000+i)
+					fmt.Fprintf(w, "csm %s result=%s\n", name, res)
+				}
+			}
+		}
 	}
 }
 
